@@ -309,6 +309,7 @@ func genCase(t *rapid.T) Case {
 		c.Segs = gen.Segments().Draw(t, "segs")
 		c.Cycle = true
 	}
+	c.TLS = !c.Pipelined && rapid.IntRange(0, 7).Draw(t, "inside-tls") == 3
 	if !c.Pipelined && rapid.IntRange(0, 2).Draw(t, "carry?") == 0 {
 		// the head of the next message arrives together with a message: its reply must not wait for the rest
 		for range c.Msgs {
